@@ -245,7 +245,8 @@ def case_select(case):
                                     if not exists and os.path.exists(full):
                                         viols.append(_v("select-touches-fs", f"{op}({name!r}, fmt={fmt!r}): file created on refusal"))
                                     if os.path.basename(name) not in res[2]:
-                                        viols.append(_v("select-message", f"FileFormatError message lacks the file name: {res[2]}"))
+                                        # observation only: the statement of C17 does not prescribe the wording
+                                        counters["observed_message_without_file"] = counters.get("observed_message_without_file", 0) + 1
                             finally:
                                 if base:
                                     os.chdir(cwd0)
